@@ -1644,7 +1644,16 @@ EnsureSizeAux(uint32 size, bool setNumItems, uint32 extraPreallocs, ItemType ** 
             newQueue[i] = QQ_PlunderItem(GetItemAtUnchecked(i));  // we know that (_itemCount < size)
       }
 
-      if (setNumItems) _itemCount = size;
+      if (setNumItems)
+      {
+         if ((size > _itemCount)&&(IsPerItemClearNecessary() == false))
+         {
+            // new[] doesn't initialize trivial item-types, so we need to set the about-to-be-added items to their default state ourself
+            const ItemType & defaultItem = GetDefaultItem();
+            for (uint32 i=_itemCount; i<size; i++) newQueue[i] = defaultItem;
+         }
+         _itemCount = size;
+      }
       _headIndex = 0;
       _tailIndex = _itemCount-1;
 
@@ -1668,7 +1677,14 @@ EnsureSizeAux(uint32 size, bool setNumItems, uint32 extraPreallocs, ItemType ** 
       // Force ourselves to contain exactly the required number of items
       if (size > _itemCount)
       {
-         // We can do this quickly because the "new" items are already initialized properly
+         if (IsPerItemClearNecessary() == false)
+         {
+            // For trivial item-types we don't reset slots when their items are removed, so the "new" items'
+            // slots may still contain old values (or uninitialized memory):  set them to the default state now.
+            const ItemType & defaultItem = GetDefaultItem();
+            for (uint32 i=_itemCount; i<size; i++) _queue[InternalizeIndex(i)] = defaultItem;
+         }
+         // else we can do this quickly because the "new" items are already initialized properly
          _tailIndex = PrevIndex(InternalizeIndex(size));
          _itemCount = size;
       }
